@@ -90,6 +90,12 @@ def _fault_fs(s, task, call, path):
         f['where'] = [call, _short(path)]
         s.fire('oserr')
         s.fire('oserr:' + call)
+        if f.get('errno') == 'INTERRUPT':
+            # not an OSError at all: what a signal handler raises in the middle of a system call (KeyboardInterrupt, SystemExit);
+            # the process survives it and goes on
+            from .ops import StreamInterrupt
+            s.fire('interrupt')
+            return StreamInterrupt('interrupted in %s' % call)
         if f.get('errno') == 'EEXIST' and call == 'open':
             return FileExistsError(_errno.EEXIST, 'File exists (injected)', str(path))
         code = _ERRNO.get(f.get('errno', 'ENOSPC'), _errno.ENOSPC)
